@@ -54,6 +54,8 @@ class World(WsWorld):
 
     def __init__(self, run, mode="gen"):
         WsWorld.__init__(self, run)
+        self.P = PROP
+        self.force = {}
         self.mode = mode
         self.stream = bytearray()  # octets the peer sent after the handshake
         self.todo = []  # frames (bytes) still to be emitted by the peer
@@ -73,6 +75,7 @@ class World(WsWorld):
             cfg = {"server": ch.flag("server"), "deflate": ch.flag("deflate", 0.3), "failByDrop": ch.flag("failByDrop"),
                    "requireMasked": not ch.flag("noRequireMasked", 0.1), "acceptMasked": ch.flag("acceptMasked", 0.1),
                    "utf8": not ch.flag("noUtf8", 0.1), "inside": False}
+        cfg.update(self.force)
         self.cfg = cfg
         is_server = cfg["server"]
         self.kind = "raw-server" if is_server else "raw-client"
@@ -395,7 +398,7 @@ class World(WsWorld):
             what = "missing-%s" % exp[k][0]
         else:
             what = "differs-%s-vs-%s" % (got[k][0], exp[k][0])
-        self.run.violate("C02.deliveries-exact", what, "delivery #%d: got %r expected %r (violation=%r)" % (
+        self.run.violate(self.P + ".deliveries-exact", what, "delivery #%d: got %r expected %r (violation=%r)" % (
             k, _brief(got[k]) if k < len(got) else None, _brief(exp[k]) if k < len(exp) else None, ref.violation))
 
     def final(self):
@@ -407,7 +410,7 @@ class World(WsWorld):
         exp = ref.deliveries
         m = e.monitor
         for suffix, sig, detail in m.errors:
-            run.violate("C02.%s" % suffix, sig, detail)
+            run.violate(self.P + ".%s" % suffix, sig, detail)
         if ref.undelivered_text or getattr(self, "garbage", False):
             return  # undecodable compressed data: outside the statement
         if got != exp and not getattr(self, "_rep", False):
@@ -418,10 +421,10 @@ class World(WsWorld):
         if ref.violation is None and not ref.incomplete or True:
             # pings of the prefix arrive while the connection is open, so each must be answered
             if got_pongs[:len(exp_pongs)] != exp_pongs:
-                run.violate("C02.ping-answered", "pong-missing-or-wrong", "pongs %r for pings %r" % (
+                run.violate(self.P + ".ping-answered", "pong-missing-or-wrong", "pongs %r for pings %r" % (
                     [p[:8] for p in got_pongs], [p[:8] for p in exp_pongs]))
             elif len(got_pongs) > len(exp_pongs):
-                run.violate("C02.ping-answered", "pong-for-ping-outside-prefix", "%d pongs, %d pings in prefix" % (
+                run.violate(self.P + ".ping-answered", "pong-for-ping-outside-prefix", "%d pongs, %d pings in prefix" % (
                     len(got_pongs), len(exp_pongs)))
         viol = ref.violation
         if viol is not None:
@@ -430,36 +433,36 @@ class World(WsWorld):
             want = 1002 if kind == "protocol" else 1007
             if self.cfg["failByDrop"]:
                 if m.close_count:
-                    run.violate("C02.fail-policy", "close-frame-despite-failByDrop", repr(m.close_sent))
+                    run.violate(self.P + ".fail-policy", "close-frame-despite-failByDrop", repr(m.close_sent))
                 if e.closed_cb is None:
-                    run.violate("C02.fail-policy", "not-dropped-after-violation:" + viol[1].split("-")[0], repr(viol))
+                    run.violate(self.P + ".fail-policy", "not-dropped-after-violation:" + viol[1].split("-")[0], repr(viol))
                 else:
                     wc, code, reason = e.closed_cb
                     if wc or code != 1006:
-                        run.violate("C02.fail-policy", "drop-reported-clean", repr(e.closed_cb))
+                        run.violate(self.P + ".fail-policy", "drop-reported-clean", repr(e.closed_cb))
                     if not self.fw_aborted():
-                        run.violate("C02.fail-policy", "not-aborted", "")
+                        run.violate(self.P + ".fail-policy", "not-aborted", "")
             else:
                 if m.close_count != 1:
-                    run.violate("C02.fail-policy", "close-frames:%d:%s" % (m.close_count, viol[1].split("-")[0]), repr(viol))
+                    run.violate(self.P + ".fail-policy", "close-frames:%d:%s" % (m.close_count, viol[1].split("-")[0]), repr(viol))
                 elif m.close_sent[0] != want:
                     if not (ref.violation_either):
-                        run.violate("C02.fail-policy", "status-%s-for-%s" % (m.close_sent[0], kind), repr(viol))
+                        run.violate(self.P + ".fail-policy", "status-%s-for-%s" % (m.close_sent[0], kind), repr(viol))
                 if e.closed_cb is not None and e.closed_cb[0] and not ref.violation_either:
                     # a failed connection is never a clean close unless the peer completed the handshake
                     if not e.rx_close_frames:
-                        run.violate("C02.fail-policy", "failed-connection-reported-clean", repr(e.closed_cb))
+                        run.violate(self.P + ".fail-policy", "failed-connection-reported-clean", repr(e.closed_cb))
         elif not ref.incomplete or ref.peer_close is not None or True:
             # no violation in the stream: the endpoint must not have failed the connection
             if ref.peer_close is None and not ref.violation_either:
                 if m.close_count:
-                    run.violate("C02.fail-policy", "failed-wellformed-stream:close-%s" % (m.close_sent[0],), "")
+                    run.violate(self.P + ".fail-policy", "failed-wellformed-stream:close-%s" % (m.close_sent[0],), "")
                 elif e.closed_cb is not None and not self.peer.closed:
-                    run.violate("C02.fail-policy", "dropped-wellformed-stream", repr(e.closed_cb))
+                    run.violate(self.P + ".fail-policy", "dropped-wellformed-stream", repr(e.closed_cb))
             if ref.peer_close is not None:
                 run.probe("peer-close-ends-prefix")
                 if m.close_count != 1 and not ref.violation_either:
-                    run.violate("C02.fail-policy", "peer-close-not-answered:%d" % m.close_count, "")
+                    run.violate(self.P + ".fail-policy", "peer-close-not-answered:%d" % m.close_count, "")
 
     def fw_aborted(self):
         t = self.e.t
